@@ -2,6 +2,7 @@
 read (the defaults of Connection._send / _recv) are scripted: every kernel call is a yield
 point at which the TLC behaviour decides how many bytes are accepted / returned, whether
 the call is interrupted (EINTR) and where the peer closes."""
+import array
 import errno
 import hashlib
 import os
@@ -138,11 +139,21 @@ class ConnAdapter:
                     if got != want:
                         out, self.intact = 'corrupt', False
                 else:
-                    buf = bytearray(b'\xAA' * a)
+                    # the destination is a byte buffer, or (when sizes allow) one of wider items:
+                    # offset and sizes are in bytes whatever the item size
+                    wide = a > 0 and a % 4 == 0 and b % 4 == 0 and m % 2 == 1
+                    buf = array.array('I', b'\xAA' * a) if wide else bytearray(b'\xAA' * a)
                     k = self.cr.recv_bytes_into(buf, b)
                     out = 'ok'
-                    if want is None or k != len(want) or bytes(buf[b:b + k]) != want or \
-                            bytes(buf[:b]) != b'\xAA' * b or bytes(buf[b + k:]) != b'\xAA' * (a - b - k):
+                    raw = bytes(buf)
+                    if wide and want is not None and len(want) % 4:
+                        # a message that is not a whole number of items cannot be stored exactly
+                        # in an item-wise slice; only its whole items are checked
+                        whole = len(want) - len(want) % 4
+                        if k != len(want) or raw[b:b + whole] != want[:whole] or raw[:b] != b'\xAA' * b:
+                            out, self.intact = 'corrupt', False
+                    elif want is None or k != len(want) or raw[b:b + k] != want or \
+                            raw[:b] != b'\xAA' * b or raw[b + k:] != b'\xAA' * (a - b - k):
                         out, self.intact = 'corrupt', False
             except EOFError:
                 out = {0: 'eof', 4: 'eof_after_header'}.get(self.call_read, 'eof_odd')
@@ -281,4 +292,5 @@ class ConnAdapter:
                 'ri': ri, 'roff': roff, 'rcall': list(self.rcall),
                 'results': [list(r) for r in self.results], 'readable': readable,
                 'rdead': self.rdead, 'slog': list(self.slog), 'neintr': self.neintr,
-                'nops': self.nops, 'intact': self.intact}
+                'nops': self.nops, 'intact': self.intact,
+                'asked': self.rpend[1] if (self.rpend and self.rpend[0] == 'read') else 0}
